@@ -142,7 +142,7 @@ theorem entropy_stream_dependent_counterexample :
     let cr : CharRecipe := { length := 2, allow := 0, require := 0, exclude := 0,
                              allowChars := [98], requireSets := [[97]], excludeChars := [] }
     let r : WLRecipe := { list := some { words := [[97], [98], [99]], unCap := 0 }, length := 3,
-                          sep := .recipe cr, capitalize := "none" }
+                          sepFunc := some (.recipe cr), capitalize := "none" }
     (match (WLRecipe.entropy cfg r).run [0, 0] with | .done d _ => d | _ => 0) = 243 ∧
     (match (WLRecipe.entropy cfg r).run [1, 1] with | .done d _ => d | _ => 0) = 27 := by
   decide
